@@ -2,10 +2,10 @@
 """Reach measurement: which lines / branches of /repo/include/fastscapelib the harness workloads execute.
 
 Not a verdict: runtime monitoring decides nothing about paths no workload drives, so this tool states which paths those
-are. Every harness binary is built once more with `g++ -O0 --coverage` (no sanitizer), run with `--prop all` on a reduced
-workload, and the gcov counters of all binaries are merged per header line.
+are. Every harness binary is built once more with `g++ -O0 --coverage` (no sanitizer), run with exactly the argument lists of
+every process the registered checks of the tier start (same properties, seeds, shards, case counts), and the gcov counters of all binaries are merged per header line.
 
-  lib/coverage.py [--cases N] [--out coverage/SUMMARY.json] [--keep]
+  lib/coverage.py [--tier quick|thorough] [--seed N] [--out coverage/SUMMARY.json] [--keep]
 
 Output: per header: instantiated lines, executed lines, lines never executed (with source text), branch outcomes never
 taken. Lines of templates that no harness instantiates do not appear at all (gcov sees instantiated code only); they are
@@ -23,16 +23,27 @@ REPO = vdriver.REPO
 INC = os.path.join(REPO, 'include')
 COV_FLAGS = ['-std=c++17', '-O0', '--coverage', '-DFASTSCAPELIB_VERIF_HOOKS', '-pthread']
 
-CASES = {'h_grid': None, 'h_flow': 600, 'h_hist': 80, 'h_erode': 600, 'h_conc': 12}
-
-
 def sh(cmd, cwd=None, timeout=3600, env=None):
     p = subprocess.run(cmd, cwd=cwd, stdout=subprocess.PIPE, stderr=subprocess.STDOUT, text=True, timeout=timeout, env=env)
     return p.returncode, p.stdout
 
 
+def workloads(tier, seed):
+    """the argument lists of every (asan-flavour) process the registered checks of that tier start, per binary"""
+    per_bin = {}
+    for pid, spec in sorted(plan.PLAN.items()):
+        for r in spec[tier](seed):
+            if r['flavour'] != 'asan' or r.get('wrapper'):
+                continue   # tsan / memcheck runs repeat the same workload
+            for sh_ in range(r['nshards']):
+                args = ['--prop', r.get('prop', pid), '--seed', str(seed), '--shard', str(sh_), '--nshards', str(r['nshards']),
+                        '--cases', str(r['cases']), '--tier', tier] + list(r.get('extra') or [])
+                per_bin.setdefault((r['harness'], r['kind']), []).append((pid, args))
+    return per_bin
+
+
 def one(job):
-    h, k, root, scale = job
+    h, k, root, runs_ = job
     d = os.path.join(root, '%s_%s' % (h, k))
     os.makedirs(d, exist_ok=True)
     obj = os.path.join(d, 'h.o')
@@ -45,20 +56,17 @@ def one(job):
     rc, out = sh(['g++', '--coverage', '-pthread', obj, '-o', exe])
     if rc != 0:
         return (h, k, None, 'link failed: ' + out[-2000:])
-    args = [exe, '--prop', 'all', '--seed', '1', '--shard', '0', '--nshards', '1', '--tier', 'quick']
-    if h == 'h_grid' and k != 'trimesh':
-        args += ['--cases', str(10 ** 9), '--x-random', '20', '--x-enumdiv', '64']
-    elif h == 'h_grid':
-        args += ['--cases', str(int(150 * scale))]
-    else:
-        args += ['--cases', str(int(CASES[h] * scale))]
-    try:
-        rc, out = sh(args, cwd=d, timeout=3600)
-    except subprocess.TimeoutExpired:
-        return (h, k, None, 'run timed out')
-    if rc not in (0, 1):
-        return (h, k, None, 'run exit %d: %s' % (rc, out[-500:]))
-    nviol = sum(1 for l in out.splitlines() if l.startswith('VIOL '))
+    nviol = 0
+    nproc = 0
+    for pid, args in runs_:
+        try:
+            rc, out = sh([exe] + args, cwd=d, timeout=7200)
+        except subprocess.TimeoutExpired:
+            return (h, k, None, 'run timed out: ' + ' '.join(args))
+        if rc not in (0, 1):
+            return (h, k, None, 'run exit %d (%s): %s' % (rc, ' '.join(args), out[-500:]))
+        nproc += 1
+        nviol += sum(1 for l in out.splitlines() if l.startswith('VIOL ') and 'mst-basic+' not in l)
     rc, out2 = sh(['gcov', '-j', '-b', '-t', obj], cwd=d)
     if rc != 0:
         return (h, k, None, 'gcov failed: ' + out2[-500:])
@@ -80,17 +88,20 @@ def one(job):
                 if b.get('throw'):
                     continue   # exceptional edges of calls: not a decision of the library
                 e[1][bi] = e[1].get(bi, 0) + b['count']
-    return (h, k, files, 'violation lines reported by the run: %d' % nviol)
+    return (h, k, files, '%d processes, violation lines other than the known finding: %d' % (nproc, nviol))
 
 
 def main(argv):
-    scale = 1.0
+    tier = 'quick'
+    seed = 1
     outp = os.path.join(VERIF, 'coverage', 'SUMMARY.json')
     keep = False
     i = 0
     while i < len(argv):
-        if argv[i] == '--scale':
-            scale = float(argv[i + 1]); i += 2
+        if argv[i] == '--tier':
+            tier = argv[i + 1]; i += 2
+        elif argv[i] == '--seed':
+            seed = int(argv[i + 1]); i += 2
         elif argv[i] == '--out':
             outp = argv[i + 1]; i += 2
         elif argv[i] == '--keep':
@@ -100,7 +111,8 @@ def main(argv):
     root = os.path.join(vdriver.BUILD, 'tmp', 'cov-%d' % os.getpid())
     shutil.rmtree(root, ignore_errors=True)
     os.makedirs(root)
-    jobs = [(h, k, root, scale) for h, kinds in plan.HARNESS_KINDS.items() for k in kinds]
+    wl = workloads(tier, seed)
+    jobs = [(h, k, root, wl[(h, k)]) for (h, k) in sorted(wl, key=lambda hk: -len(wl[hk]))]
     t0 = time.time()
     with ThreadPoolExecutor(max_workers=16) as ex:
         res = list(ex.map(one, jobs))
@@ -119,7 +131,7 @@ def main(argv):
                     e[1][bi] = e[1].get(bi, 0) + bc
     summary = {'tool': 'g++ -O0 --coverage + gcov -b, merged over %d harness binaries' % len(jobs),
                'repo_head': sh(['git', '-C', REPO, 'rev-parse', '--short', 'HEAD'])[1].strip(),
-               'scale': scale, 'wall_s': None, 'runs': notes, 'files': {}, 'total': {}}
+               'tier': tier, 'seed': seed, 'wall_s': None, 'runs': notes, 'files': {}, 'total': {}}
     tl = te = tb = tbe = 0
     for rel in sorted(merged):
         M = merged[rel]
